@@ -95,3 +95,12 @@ Fixpoint split_sp_aux (s : string) (cur : string) : list string :=
   end.
 Definition split_sp (s : string) : list string := split_sp_aux s EmptyString.
 Definition blank_sp (s : string) : bool := is_nil (split_sp s).
+
+(* str.strip() restricted to blanks, for the closed examples *)
+Fixpoint lstrip_sp (s : string) : string :=
+  match s with
+  | String c s' => if Ascii.eqb c " "%char then lstrip_sp s' else s
+  | EmptyString => EmptyString
+  end.
+Fixpoint rev_str (s acc : string) : string := match s with String c s' => rev_str s' (String c acc) | EmptyString => acc end.
+Definition strip_sp (s : string) : string := rev_str (lstrip_sp (rev_str (lstrip_sp s) EmptyString)) EmptyString.
